@@ -12,3 +12,7 @@ import SpoxModel.Props.C14
 #print axioms C14.function_sem
 #print axioms C14.function_sem_rejects
 #print axioms C14.coarse_comparison_merges
+#print axioms C14.body_req_in_model_req
+#print axioms C14.reachable_bodies_are_used
+#print axioms C14.imports_agree_with_model_program
+#print axioms C14.used_has_body
